@@ -25,8 +25,10 @@ MANIFEST = {
              "response error with status; a 200 body holding the response element -> exactly the declared out-arguments "
              "present, converted by the declared coercion, for arbitrary trees, orders, and trailing padding; unknown "
              "out-arguments / foreign namespace -> library error in strict mode, tolerated otherwise. The exception "
-             "hierarchy and the type table are regenerated from the source and pinned by decide-theorems. The model is "
-             "tied to client.py by comparing outcome class, error_code, error_desc, status and returned mapping on every "
+             "hierarchy and the type table are regenerated from the source and pinned by decide-theorems. "
+             "c07_history_ok: every call of every history of calls on one action object satisfies the judge on its own "
+             "response (decode is stateless in the model; the implementation is compared call by call on generated "
+             "histories). The model is tied to client.py by comparing outcome class, error_code, error_desc, status and returned mapping on every "
              "generated response; C07.ok is evaluated on the implementation's outcome."),
     "note": ("Trusted: Lean kernel + standard axioms; XML text -> tree (expat/defusedxml: prefixes, whitespace, entities, "
              "CDATA) is an oracle table filled by the real parser, sampled not proved; float()/parse_date_time are oracles; "
